@@ -118,10 +118,11 @@ deriving DecidableEq, Repr
 
 /-- what `file_to_input_mapping` / `infer` can see of a value of the input mapping -/
 inductive NodeKind where
-  /-- `ClassDef`; is one of its bases the `Name` `Base`? -/
-  | cls (baseIsBase : Bool)
-  /-- `FunctionDef` / `AsyncFunctionDef`; is one of `args.args` called `argument_parser`? -/
-  | fn (async : Bool) (hasArgumentParser : Bool)
+  /-- `ClassDef`; `baseIds` = the `id`s of its bases that are plain `Name`s, in order (`Attribute`, `Subscript`, `Call`
+      bases have no `id` and are skipped by `filter(rpartial(hasattr, "id"), node.bases)`) -/
+  | cls (baseIds : List Str)
+  /-- `FunctionDef` / `AsyncFunctionDef`; `argNames` = the names of `args.args`, in order -/
+  | fn (async : Bool) (argNames : List Str)
   /-- the dict loaded from a JSON file -/
   | json
   /-- `Assign` / `AnnAssign` at module level -/
@@ -184,13 +185,16 @@ inductive ParserName where
   | class_ | function | jsonSchema | pydantic | sqlalchemy
 deriving DecidableEq, Repr
 
-/-- `cdd.shared.parse.utils.parser_utils.infer(node)` on the node kinds above -/
+def baseName : Str := ['B','a','s','e']
+def argumentParserName : Str := ['a','r','g','u','m','e','n','t','_','p','a','r','s','e','r']
+
+/-- `cdd.shared.parse.utils.parser_utils.infer(node)` on the node kinds above.
+    A class is SQLAlchemy when **any** of its plain-name bases is called `Base` (position irrelevant); a function is an
+    argparse function when **any** of its positional parameters is called `argument_parser`. -/
 def inferNode : NodeKind → Except Err PStr
-  | .fn false true => .ok .argparse_ast
-  | .fn false false => .ok .function
+  | .fn false args => if args.contains argumentParserName then .ok .argparse_ast else .ok .function
   | .fn true _ => .error .notImplemented       -- `isinstance(node, FunctionDef)` is false for AsyncFunctionDef
-  | .cls true => .ok .sqlalchemy
-  | .cls false => .ok .class_
+  | .cls ids => if ids.contains baseName then .ok .sqlalchemy else .ok .class_
   | .json => .error .notImplemented            -- `raise NotImplementedError(node)`
   | .assign => .error (.outside "infer on an assignment")
   | .otherStmt => .error .notImplemented
